@@ -547,7 +547,7 @@ fn step2(s: &St2, ev: Event) -> Result<St2, String> {
 
 fn alphabet2() -> Vec<(String, Event)> {
     let mut v = Vec::new();
-    for c in ['j', 'k', 'g', 'q', 'a', 'c', '.', '-', '/', 'x', '4', '(', 'b'] {
+    for c in ['j', 'k', 'g', 'q', 'a', 'c', '.', '-', '/', 'x', '4', '(', 'b', '\\', '[', ']', '*', '+', '?', '|', '{', '^', '$'] {
         v.push((format!("Char({c})"), Event::Key(KeyEvent::new(KeyCode::Char(c), KeyModifiers::NONE))));
     }
     for (n, k) in [("Esc", KeyCode::Esc), ("Enter", KeyCode::Enter), ("Backspace", KeyCode::Backspace), ("Up", KeyCode::Up), ("Down", KeyCode::Down), ("Home", KeyCode::Home)] {
@@ -708,11 +708,117 @@ pub fn run_render(ctx: &Ctx, rep: &Report) {
         total_trans += c;
         total_states += c;
     }
+    // sorting a large table whose columns mix values, blanks and ties: every sequence of up to three keys over the
+    // sort / direction / movement keys, a draw after each (sort routines switch algorithm above ~20 elements, and a
+    // comparator that is not a total order only shows on larger inputs)
+    {
+        let keys: Vec<(String, Event)> = alpha.iter().filter(|(n, _)| n.starts_with("Char(") && !["Char(/)", "Char(q)"].contains(&n.as_str())).cloned().collect();
+        let mut seqs: Vec<Vec<usize>> = Vec::new();
+        for a in 0..keys.len() {
+            seqs.push(vec![a]);
+            for b in 0..keys.len() {
+                seqs.push(vec![a, b]);
+                if ctx.thorough() {
+                    for c in 0..keys.len() {
+                        seqs.push(vec![a, b, c]);
+                    }
+                }
+            }
+        }
+        let sizes: &[usize] = if ctx.thorough() { &[21, 70, 300] } else { &[70] };
+        let cnt = std::sync::atomic::AtomicU64::new(0);
+        for n in sizes {
+            par_items(ctx.threads, seqs.len(), |i| {
+                let evs: Vec<Event> = seqs[i].iter().map(|k| keys[*k].1).collect();
+                cnt.fetch_add(1, std::sync::atomic::Ordering::Relaxed);
+                if let Err(p) = sort_and_draw(*n, &evs) {
+                    let names: Vec<&str> = seqs[i].iter().map(|k| keys[*k].0.as_str()).collect();
+                    rep.violation(
+                        &format!("panic:sort:{}:{}", last_panic_file(), panic_class(&p)),
+                        format!("{p} (at {}) after {names:?} on a table of {n} aircraft with partly blank columns", last_panic_loc()),
+                        json!({"kind": "sort", "aircraft": n, "events": names}),
+                    );
+                }
+            });
+        }
+        let c = cnt.load(std::sync::atomic::Ordering::Relaxed);
+        rep.part("sorting a table of 70 (thorough 21 / 70 / 300) heterogeneous aircraft: key sequences with a draw after each key", c, json!({"keys": keys.len()}));
+        total_trans += c;
+        total_states += c;
+    }
     rep.state(total_states);
     rep.trans(total_trans);
     rep.eval(total_trans);
     rep.nontriv(total_states);
     rep.sample(json!({"kind": "render", "aircraft": 3, "events": ["Char(/)", "Char(x)", "Enter", "Char(j)"]}));
+}
+
+/// A fleet of `n` aircraft that know different things: row i has a call sign, a position (altitude), a velocity
+/// (ground speed, track, vertical rate) and a BDS 6,0 reply (IAS, Mach, heading) according to bits 0..3 of i, so that
+/// every sort column holds a mixture of values and blanks, with ties.
+fn fleet_hetero(n: usize) -> std::collections::BTreeMap<String, StateVectors> {
+    use super::frames::*;
+    let now = std::time::SystemTime::now().duration_since(std::time::UNIX_EPOCH).map(|d| d.as_secs()).unwrap_or(0);
+    let app = tokio::sync::Mutex::new(Jet1090::default());
+    let db = std::collections::BTreeMap::new();
+    for i in 0..n {
+        let a = 0x600000 + 0x0101 * i as u32;
+        let mut frames = vec![df11(5, a, 0)];
+        if i & 1 != 0 {
+            frames.push(df17(5, a, &me_bds08(4, 3, &cs_codes(&format!("T{}", i % 7))), 0));
+        }
+        if i & 2 != 0 {
+            frames.push(df17(5, a, &me_bds05(11, 0, 0, ac12_q(10000 + 1000 * (i % 5) as i32), 0, 0, 93000, 51372), 0));
+        }
+        if i & 4 != 0 {
+            frames.push(df17(5, a, &me_bds09_gs(1, 0, 0, 0, 0, 100 + 50 * (i % 3) as u16, 1, 20, 0, (i % 2) as u8, 2 + (i % 4) as u16, 0, 5), 0));
+        }
+        if i & 8 != 0 {
+            frames.push(df20_21(20, 0, 0, 0, ac13_q(30000), &mb_bds60(Some(200 + (i % 3) as u32), Some(280), Some(190), Some(5), Some(6)), a));
+        }
+        for (k, f) in frames.iter().enumerate() {
+            if let Ok(m) = rs1090::decode::Message::try_from(f.as_slice()) {
+                // (every record that reaches the table in jet1090 carries the metadata of its reception: the REFERENCE
+                // column relies on it)
+                let metadata = vec![SensorMetadata { system_timestamp: now as f64, gnss_timestamp: None, nanoseconds: None, rssi: None, serial: 1 + (i % 3) as u64, name: if i % 3 == 0 { None } else { Some(format!("rx{}", i % 3)) } }];
+                let mut tm = rs1090::decode::TimedMessage { timestamp: now as f64 - 10.0 + k as f64, frame: vec![], message: Some(m), metadata, decode_time: None };
+                futures::executor::block_on(crate::snapshot::update_snapshot(&app, &mut tm, &db));
+            }
+        }
+    }
+    let mut j = app.into_inner();
+    for sv in j.state_vectors.values_mut() {
+        sv.cur.lastseen = now + 3600;
+    }
+    std::mem::take(&mut j.state_vectors)
+}
+
+/// Apply `events` to a table of `n` heterogeneous aircraft on a 200 x 90 terminal, drawing after every event.
+fn sort_and_draw(n: usize, events: &[Event]) -> Result<(), String> {
+    let core = St { n: 0, sel: Some(0), quit: false, search: false, sort: 3, asc: false, query: String::new(), width: 200 };
+    let mut j = build(&core);
+    j.state_vectors = fleet_hetero(n);
+    let m = tokio::sync::Mutex::new(j);
+    let mut g = m.try_lock().expect("fresh mutex");
+    for ev in std::iter::once(&Event::Tick(200)).chain(events.iter()) {
+        guarded(|| {
+            let _ = crate::update(&mut g, *ev);
+        })
+        .map_err(|p| format!("update: {p}"))?;
+        guarded(|| {
+            let mut term = Terminal::new(TestBackend::new(200, 90)).expect("test terminal");
+            term.draw(|frame| crate::table::build_table(frame, &mut g)).map(|_| ())
+        })
+        .map_err(|p| format!("draw: {p}"))?
+        .map_err(|e| format!("draw: io error {e}"))?;
+        let st = read_back(&g);
+        if let Some(i) = st.sel {
+            if st.n == 0 && i != 0 || st.n > 0 && i >= st.n {
+                return Err(format!("draw: selection {i} out of range with {} rows", st.n));
+            }
+        }
+    }
+    Ok(())
 }
 
 /// One draw of a table of `total` aircraft (mixed ages) on a w x h terminal.
@@ -738,6 +844,16 @@ fn draw_at(total: usize, search: bool, know_width: bool, w: u16, h: u16) -> Resu
 }
 
 pub fn replay_render(w: &Value, rep: &Report) {
+    if w["kind"].as_str() == Some("sort") {
+        let alpha = alphabet2();
+        let evs: Vec<Event> = w["events"].as_array().map(|a| a.iter().filter_map(|x| alpha.iter().find(|(n, _)| Some(n.as_str()) == x.as_str()).map(|(_, e)| *e)).collect()).unwrap_or_default();
+        if let Err(p) = sort_and_draw(w["aircraft"].as_u64().unwrap_or(70) as usize, &evs) {
+            rep.violation(&format!("panic:sort:{}:{}", last_panic_file(), panic_class(&p)), p, w.clone());
+        }
+        rep.trans(1);
+        rep.state(1);
+        return;
+    }
     if w["kind"].as_str() == Some("geometry") {
         let (total, search, kw) = (w["aircraft"].as_u64().unwrap_or(0) as usize, w["search"].as_bool().unwrap_or(false), w["know_width"].as_bool().unwrap_or(false));
         if let Err(p) = draw_at(total, search, kw, w["width"].as_u64().unwrap_or(80) as u16, w["height"].as_u64().unwrap_or(12) as u16) {
